@@ -54,6 +54,15 @@ TEXT.update({
             "per-kind reference-model monitor over context-operation, upgrade and tick events"),
 })
 
+TEXT.update({
+    "C06": ("fault_enumeration", "DESIGN.md §3 C06",
+            "For every program of the fault families the fault-free run is made first under the same schedule seed, then one run per single fault: a panic at each callback entry observed (started, every handler, stopped, finished), an Err from each started, a cancellation after each poll of the victim's loop task. On every faulted run the oracle demands: pending and later operations on the victim error out (nothing pending at quiescence), await Err / join None, no timer activity and no live timer task after its end, released children stop gracefully, the registry respawns / replaces it, bystanders (incl. one calling the victim from a handler) keep answering and end only for their own reasons.",
+            "systematic single-fault injection (kind x position) + containment oracles on the resulting traces"),
+    "C16": ("exploration", "DESIGN.md §3 C16",
+            "Tree programs (up to 6 nodes, depth 3) register children under Bcast<0>, Bcast<1> or (); the effects log which child was registered where, so the oracle can demand that a child without outside handles never begins stopped() before its parent released it, stops gracefully after the parent's task ended (recursively), that children held outside keep running, and that each broadcast is handled exactly once per registration by children of that type and by nobody else.",
+            "parent/child liveness monitor + exactly-once broadcast oracle"),
+})
+
 NOT_YET = "check not built yet in this revision (planned, see DESIGN.md §3)"
 
 def main():
